@@ -24,7 +24,7 @@ func init() {
 		ID: "C13",
 		Rule: "per case one session: a shared document (through the store or through ReadXml), a pool of separately compiled expressions that are reused many times, shared binding maps assigned CLI-style (two namespace environments; per call one of four function libraries: shared, none, unset, or one that adds g() and shadows string-length()/count()), and a pool of caller-held NodeSets (earlier results — always those a custom function step built from the context it was handed —, reverse-ordered copies, sub-slices full[i:j] with spare capacity whose backing array holds sentinel cursors beyond len); a PRNG-determined history of Exec (from the root / inner nodes, with pooled NodeSets as variables and as the return value of a custom function, used as union operands, filter primaries, path heads and function arguments), Unmarshal and re-BuildExpr operations; " +
 			"oracle after every operation: deep snapshot of the cursor tree through the public interface (identity, Pos, kind/name/value, list membership and order, Parent) equals the initial one; every pooled NodeSet's length, capacity and all cap elements are unchanged; the binding maps and the option slice handed to Unmarshal (including its spare capacity) are unchanged; a reflection-based structural hash of every Grammar (BSR forest and lexer, maps order-insensitively, pointers with cycle detection) is unchanged (checked every 16 operations and at the end); every (expression, start node, bindings) triple is re-executed at random later points and must equal its first result (values; node identity and order; four in ten Exec operations repeat an earlier call exactly); custom functions resolve only in the calls that bind them; two BuildExpr of one string agree, also when the second compilation happens sessions later in the same process (after thousands of other BuildExpr calls), judged on a fixed document. distinct_nontrivial = distinct (operation kind, expression) pairs with a non-empty result",
-		NCases: func(tier string) int { return map[string]int{"quick": 800, "thorough": 8000}[tier] },
+		NCases: func(tier string) int { return map[string]int{"quick": 800, "thorough": 5000}[tier] },
 		Case:   c13Case,
 	})
 }
